@@ -166,6 +166,7 @@ type handleInfo struct {
 }
 
 type result struct {
+	Panic   string `json:"panic,omitempty"`
 	Err     error
 	ErrText string // error text with the sandbox directory replaced by <sandbox> (the OS sandbox has a per-run name)
 	Kind    string // ok | too-large | <other kind>
@@ -253,8 +254,18 @@ func extract(backend, osRoot string, zipBytes []byte, c limitsCfg) (result, erro
 		return result{}, err
 	}
 	defer sb.clean()
-	_, xerr := sb.fs.UnzipWithContextAndLimits(context.Background(), sb.src, sb.dest, filesystem.NewLimits(c.File, c.Total, c.Count, c.Depth, c.Rec))
-	r := result{Err: xerr, Kind: kindOf(xerr), M: walk(sb.raw, sb.dest), Mutat: sb.trace.Mutating}
+	var xerr error
+	panicked := ""
+	func() {
+		defer func() {
+			if pv := recover(); pv != nil { // an archive must never bring the caller down: judged as a finding of its own
+				panicked = fmt.Sprint(pv)
+				xerr = fmt.Errorf("the extraction panicked: %v", pv)
+			}
+		}()
+		_, xerr = sb.fs.UnzipWithContextAndLimits(context.Background(), sb.src, sb.dest, filesystem.NewLimits(c.File, c.Total, c.Count, c.Depth, c.Rec))
+	}()
+	r := result{Err: xerr, Kind: kindOf(xerr), M: walk(sb.raw, sb.dest), Mutat: sb.trace.Mutating, Panic: panicked}
 	if xerr != nil {
 		r.ErrText = strings.ReplaceAll(xerr.Error(), filepath.Dir(sb.src), "<sandbox>")
 	}
@@ -336,6 +347,9 @@ func judge(p *prepared, c limitsCfg, t0 result, r result) []finding {
 	}
 	fileDimReported := false
 	honest := !p.tr.Liar && !p.tr.Corrupt
+	if r.Panic != "" {
+		out = append(out, finding{"panic:" + tag, "the extraction panicked: " + r.Panic})
+	}
 	// (1)
 	if r.Err == nil {
 		if v := r.M.violated(c); v != 0 {
